@@ -364,6 +364,22 @@ def check_c06(job):
                     break
             if len({frozenset(a) for a in answers}) > 1:
                 bad.append(({"c06:dependsOnInvocationPoint"}, {"entity": e}))
+            # history: query, an in-line edit that needs no re-parse (two blanks inserted at the start of a
+            # line holding occurrences), query again - the answer must describe the CURRENT text
+            reft = [t for t in toks if t["ent"] == e and t["name"] == e[1] and t["role"] == "ref"]
+            if reft and not bad:
+                t0 = reft[0]
+                adapter.notify(s, c, "textDocument/didChange", {"textDocument": {"uri": adapter.uri(d, t0["file"])}, "contentChanges": [
+                    {"range": {"start": {"line": t0["line"], "character": 0}, "end": {"line": t0["line"], "character": 0}}, "text": "  "}]})
+                shift = lambda o: (o[0], o[1], o[2] + 2, o[3] + 2) if (o[0], o[1]) == (t0["file"], t0["line"]) else o
+                occ2 = {shift(o) for o in occ}
+                dont2 = {shift(o) for o in dont}
+                pp = adapter.posparams(d, t0["file"], t0["line"], t0["sc"] + 2, context={"includeDeclaration": True})
+                got = ranges_of(adapter.result_of(adapter.request(s, c, "textDocument/references", pp)))
+                if not (occ2 <= got and got - occ2 <= dont2):
+                    bad.append(({"c06:staleAfterInlineEdit"}, {"entity": e, "expected": sorted(occ2), "observed": sorted(got)}))
+                adapter.notify(s, c, "textDocument/didChange", {"textDocument": {"uri": adapter.uri(d, t0["file"])}, "contentChanges": [
+                    {"range": {"start": {"line": t0["line"], "character": 0}, "end": {"line": t0["line"], "character": 2}}, "text": ""}]})
     finally:
         adapter.rmws(d)
     return [(t, dict(x, files=files)) for t, x in bad]
